@@ -74,7 +74,12 @@ def class_state(cls):
     st = {}
     for a in CLASS_ATTRS:
         if hasattr(cls, a):
-            st[a] = (a in cls.__dict__, copy.deepcopy(getattr(cls, a)), getattr(cls, a))
+            obj = getattr(cls, a)
+            try:
+                val = copy.deepcopy(obj)
+            except Exception:  # noqa   (e.g. _stored_codes holding IRCode objects with locks)
+                val = list(obj) if isinstance(obj, list) else obj
+            st[a] = (a in cls.__dict__, val, obj)
     return st
 
 
@@ -87,7 +92,10 @@ def restore_class_state(cls, st):
         if cur is not obj or cur != val:
             changed.append(a)
         if isinstance(obj, list):
-            obj[:] = copy.deepcopy(val)
+            try:
+                obj[:] = copy.deepcopy(val)
+            except Exception:  # noqa
+                obj[:] = list(val)
             if own or a in cls.__dict__:
                 setattr(cls, a, obj)
         elif own:
